@@ -328,7 +328,7 @@ func reportIssues(c *Ctx, rs *Resid, rule, prefix string, issues []sideIssue) bo
 	for _, is := range issues {
 		gf := "?"
 		if ln := rs.line(is.node.Pos()); ln-1 < len(rs.Run.LinePos) {
-			gf = c.Repo.funcAt(rs.Run.LinePos[ln-1])
+			gf = c.R.repo.funcAt(rs.Run.LinePos[ln-1])
 		}
 		key := fmt.Sprintf("%s|%s|%s|%s", rule, rs.Run.Plugin, gf, is.kind)
 		if is.shape != "" {
